@@ -358,11 +358,11 @@ type cqFamily struct {
 func cqFamilies(thorough bool) []cqFamily {
 	f := []cqFamily{
 		{"1.20.3", version.Minecraft_1_20_3.Protocol, []string{
-			"chat:0", "chat:1", "chat:3", "ack:1", "ack:19", "ack:21", "ack:40",
+			"chat:0", "chat:1", "chat:3", "ack:0", "ack:1", "ack:19", "ack:21", "ack:40",
 			"cmd:fwd:0", "cmd:fwd:3", "cmd:run:0", "cmd:run:3", "cmd:deny:0", "cmd:deny:3", "cmd:mod:0", "cmd:mod:3", "cmd:ef:3",
 			"sig:fwd:1", "sig:deny:1", "mchat:1", "spoof", "smchat:1"}, false},
 		{"1.21", version.Minecraft_1_21.Protocol, []string{
-			"chat:0", "chat:1", "chat:3", "ack:1", "ack:19", "ack:21", "ack:40",
+			"chat:0", "chat:1", "chat:3", "ack:0", "ack:1", "ack:19", "ack:21", "ack:40",
 			"ucmd:fwd", "ucmd:run", "ucmd:deny", "ucmd:mod", "ucmd:ef",
 			"sig:fwd:1", "sig:run:1", "mchat:3", "spoof"}, false},
 		// forceKeyAuthentication off: a signed command that is denied / consumed / rewritten does NOT disconnect,
@@ -383,7 +383,7 @@ func cqFamilies(thorough bool) []cqFamily {
 		for i := range f {
 			var keep []string
 			for _, p := range f[i].packets {
-				if !strings.HasPrefix(p, "mchat") && !strings.HasPrefix(p, "smchat") && p != "spoof" {
+				if !strings.HasPrefix(p, "mchat") && !strings.HasPrefix(p, "smchat") && p != "spoof" && p != "ack:0" {
 					keep = append(keep, p)
 				}
 			}
@@ -499,6 +499,12 @@ func cqDeepScenarios() []schedrun.Scenario {
 		mk("deep:spoof-between-chats", p1, 2, 3, "chat:1", "spoof", "chat:3"),
 		mk("deep:acks-spoof-chat", p2, 2, 3, "ack:19", "spoof", "chat:1", "spoof"),
 		mk("deep:rewritten-chat-between-acks", p1, 2, 3, "ack:19", "mchat:1", "ack:21", "chat:0"),
+		// quantifier audit: offset 0 is the edge of "non-negative offsets" (an ack:0 leaves the quiescent state unchanged,
+		// so the BFS only ever has it LAST); the exact protocol versions of the two gates the code distinguishes
+		// (1.19.3 = first session-chat version, 1.20.5 = first version with UnsignedPlayerCommand)
+		mk("deep:zero-ack-between-acks", p1, 2, 3, "ack:19", "ack:0", "ack:21", "chat:1"),
+		mk("deep:1.19.3:ack19-consumed-cmd-chat", version.Minecraft_1_19_3.Protocol, 2, 3, "ack:19", "cmd:run:3", "cmd:mod:0", "chat:1"),
+		mk("deep:1.20.5:unsigned-cmd-keeps-held-acks", version.Minecraft_1_20_5.Protocol, 2, 3, "ack:19", "ucmd:fwd", "ucmd:run", "sig:fwd:1"),
 	}
 }
 
